@@ -38,3 +38,31 @@ let () = Reg.register "c09.scan" (fun inp out ->
      with Invalid_argument _ -> verdict := "bad:unparsable");
     (L model, !verdict)
   | _ -> failwith "c09.scan")
+
+(* c09.bisim: input (tables (rule ...) sc); the proved-sound certificate check Bisim.check_bisim between the real tables
+   and the derivative vectors of the active rules.  Output "proved" when the certificate is accepted (then Scan agrees
+   with spec_scan on EVERY text, C09_check_bisim_scan); "unknown:<why>" when the exploration gave up or the certificate
+   was rejected for a reason that is not a difference; a difference (labels / moves) is a violation. *)
+let bisim_cap = nat_of_int (try int_of_string (Sys.getenv "BISIM_CAP") with _ -> 200)
+(* symbol maps with more intervals than this (large Unicode classes) are skipped: the certificate costs
+   |pairs| x |intervals| x |class ranges|; set BISIM_MAXIV to check them too *)
+let bisim_maxiv = (try int_of_string (Sys.getenv "BISIM_MAXIV") with _ -> 400)
+let () = Reg.register "c09.bisim" (fun inp _out ->
+  match lst inp with
+  | [tb; rules; sc] ->
+    let t = get_tables tb in
+    let sc = get_z sc in
+    let sci = int_of_z sc in
+    let active = Stdlib.List.filter_map (fun r -> match lst r with
+      | [d; a; p; scs] ->
+        if Stdlib.List.mem sci (get_list get_int scs)
+        then Some ((Deriv.rx_of (P_c10.get_re d), get_z a), get_z p) else None
+      | _ -> failwith "rule") (lst rules) in
+    if Stdlib.List.length t.Tables.symbol_map > bisim_maxiv then (A "unknown:large-symbol-map", "ok") else
+    (match int_of_z (Bisim.check_bisim bisim_cap t active sc) with
+     | 0 -> (A "proved", "ok")
+     | 1 -> (A "unknown:exploration-cap", "ok")
+     | 2 -> (A "unknown:certificate-not-applicable", "ok")
+     | 3 -> (A "differs", "bad:tables-and-rule-derivatives-accept-differently-at-a-reachable-state")
+     | _ -> (A "differs", "bad:tables-and-rule-derivatives-move-differently-at-a-reachable-state"))
+  | _ -> failwith "c09.bisim")
